@@ -84,6 +84,32 @@ func genFollowerClients(prop string, seed uint64, tier string) *Scenario {
 		}
 		body.Clients = append(body.Clients, fc)
 	}
+	if pr := ssched.Sub(seed, "probable"); pr.Intn(3) == 0 {
+		// drawn from a generator of its own: a client on the leader takes and releases a key in quick
+		// succession (persisted at once, so every hold reaches the followers), a client on a follower
+		// asks for the same key with the concurrent-check flag and no timeout (the request a follower is
+		// tempted to answer from its own copy), and other lock requests get that flag too
+		k := pr.Intn(body.NKeys)
+		p := FCClient{Target: 0, StartMs: 300 + pr.Intn(300)}
+		q := FCClient{Target: 1 + pr.Intn(body.NFollowers), StartMs: 300 + pr.Intn(300), Text: pr.Intn(4) == 0}
+		for i, n := 0, 6+pr.Intn(10); i < n; i++ {
+			p.Ops = append(p.Ops, OpSpec{Cmd: 1, Key: k, Lid: 200, Timeout: 1, Expried: 60, EFlag: efAof0, DelayMs: pr.Intn(6), Wait: true},
+				OpSpec{Cmd: 2, Key: k, Lid: 200, DelayMs: pr.Intn(6), Wait: true})
+		}
+		for i, n := 0, 8+pr.Intn(14); i < n; i++ {
+			q.Ops = append(q.Ops, OpSpec{Cmd: 1, Key: k, Lid: 201, Flag: protocol.LOCK_FLAG_CONCURRENT_CHECK, Expried: 60, EFlag: efAof0, DelayMs: pr.Intn(5), Wait: true},
+				OpSpec{Cmd: 2, Key: k, Lid: 201, Wait: true})
+		}
+		body.Clients = append(body.Clients, p, q)
+		for c := range body.Clients[:len(body.Clients)-2] {
+			for i := range body.Clients[c].Ops {
+				if o := &body.Clients[c].Ops[i]; o.Cmd == 1 && pr.Intn(5) == 0 {
+					o.Flag |= protocol.LOCK_FLAG_CONCURRENT_CHECK
+					o.Timeout = 0
+				}
+			}
+		}
+	}
 	if r.Intn(5) == 0 {
 		body.RestartFollowerMs = 1500 + r.Intn(3000)
 	}
@@ -190,6 +216,7 @@ type fcRun struct {
 	lastSig   map[*PriorityMutex]string
 	done      bool
 	believed  map[string]*ReqRec // "key/lid" -> granting request, per client belief
+	freeSince map[int]uint64     // key -> event number since which it has been free on the leader (0: held)
 	clientsUp int
 }
 
@@ -199,13 +226,36 @@ func runFollowerClients(w *World) {
 		w.harnessErr("bad body: %v", err)
 		return
 	}
-	fr := &fcRun{w: w, body: body, h: newHistory(w), lastSig: map[*PriorityMutex]string{}, believed: map[string]*ReqRec{}}
+	fr := &fcRun{w: w, body: body, h: newHistory(w), lastSig: map[*PriorityMutex]string{}, believed: map[string]*ReqRec{}, freeSince: map[int]uint64{}}
+	for k := 0; k < body.NKeys; k++ {
+		fr.freeSince[k] = 1
+	}
 	rr := &restartRun{w: w, h: fr.h}
 	leaderAddr := "127.0.0.1:5001"
 	nodeOf := map[int]*Node{}
 	ssync.OnAnyRelease = func(m *ssync.Mutex) {
 		node := ssched.CurrentNode()
 		n := nodeOf[node]
+		if n != nil && n.sl != nil && node == 1 && n == fr.leader {
+			// the leader: since when each key has been free without interruption (0 = it is held)
+			if db := n.sl.dbs[0]; db != nil {
+				busy := map[[16]byte]bool{}
+				for _, lm := range allManagers(db) {
+					if lm.refCount != 0xffffffff && lm.locked > 0 {
+						busy[lm.lockKey] = true
+					}
+				}
+				for k := 0; k < body.NKeys; k++ {
+					switch {
+					case busy[keyBytes(k)]:
+						fr.freeSince[k] = 0
+					case fr.freeSince[k] == 0:
+						fr.freeSince[k] = fr.h.ev + 1
+					}
+				}
+			}
+			return
+		}
 		if n == nil || n.sl == nil || node < 100 {
 			return
 		}
@@ -274,6 +324,21 @@ func runFollowerClients(w *World) {
 			w.violate("C10", "text_reply_not_a_lock_result", "request %s sent over a text connection to %s was answered %s, neither a lock result nor a refusal", r, via, rep.TextRaw)
 		}
 		bk := fmt.Sprintf("%d/%d", r.Op.Key, r.Op.Lid)
+		if r.Op.Cmd == protocol.COMMAND_LOCK && r.Op.Flag&protocol.LOCK_FLAG_CONCURRENT_CHECK != 0 {
+			w.probe("concurrent_check_requests")
+		}
+		if r.Op.Cmd == protocol.COMMAND_LOCK && rep.Result == protocol.RESULT_TIMEOUT && r.Op.TFlag&0x0200 == 0 && r.Op.Db == 0 {
+			// only the leader decides: a TIMEOUT means the key was in somebody's hands on the leader at some
+			// moment between the request and its answer
+			if fs := fr.freeSince[r.Op.Key]; fs != 0 && fs <= r.InvEv {
+				class := "timeout_although_key_free_on_leader"
+				if via != "the leader" && r.Op.Flag&protocol.LOCK_FLAG_CONCURRENT_CHECK != 0 && r.Op.Timeout == 0 {
+					class = "follower_answered_concurrent_check_from_its_copy" // LockDB.CheckProbableLock, finding F94
+				}
+				w.violate("C10", class, "request %s was answered TIMEOUT through %s, but on the leader key %d was free from before the request was sent until the answer arrived: the answer was not the leader's", r, via, r.Op.Key)
+			}
+			w.probe("timeouts_checked_on_leader")
+		}
 		switch {
 		case r.Op.Cmd == protocol.COMMAND_LOCK && rep.Result == protocol.RESULT_SUCCED && r.Op.Expried > 0:
 			held, _ := leaderHolds(&r.Op)
